@@ -23,6 +23,8 @@ EXPLANATION = (
     ' are followed for all eight combinations (width given / missing, height given / missing, viewBox present /'
     " absent): a given dimension reaches render unchanged, a missing one becomes the viewBox's dimension of the"
     ' same axis, else 1000.'
+    " R11.8: the svg element's own x, y, width, height - the e-x, e-y, e-width, e-height of the algorithm -"
+    ' resolve percentages against the viewport axis they lie on (C03 R03.7 for the svg element).'
 )
 TECHNIQUE = (
     "static analysis (no execution): the whole function partially evaluated for every preserveAspectRatio value (10 align x 3 meetOrSlice + defaults) and every identity-test answer; resulting transform strings compared with the SVG 2 8.2 reference as exact canonical forms"
@@ -33,7 +35,7 @@ ASSUMPTIONS = [
     "Number formatting (Length.str, 12 decimals) is outside the decided part.",
 ]
 EXHAUSTIVE = True
-FLOORS = {"R11.1": 120, "R11.3": 10, "R11.4": 16, "R11.6": 2, "R11.7": 8}
+FLOORS = {"R11.1": 120, "R11.3": 10, "R11.4": 16, "R11.6": 2, "R11.7": 8, "R11.8": 4}
 
 ALIGNS = ["none"] + ["x%sY%s" % (a, b) for a in ("Min", "Mid", "Max") for b in ("Min", "Mid", "Max")]
 PARAMS = ["e_x", "e_y", "e_width", "e_height", "vb_x", "vb_y", "vb_width", "vb_height", "aspect"]
@@ -66,9 +68,15 @@ def run(ctx):
     ctx.rule("R11.4", "output order and identity elision")
     ctx.rule("R11.5", "parameter plumbing")
     ctx.rule("R11.6", "an incomplete viewBox counts as no viewBox")
+    ctx.rule("R11.8", "e-x, e-y, e-width, e-height: percentages of the svg element resolve against the viewport axis they lie on (obligations shared with C03)")
     ctx.rule("R11.7", "the element size handed to render: each dimension defaults on its own (caller value, else viewBox dimension, else 1000)")
     incomplete_viewbox(ctx)
     size_defaults(ctx)
+    # the element position and size that enter the algorithm: x and width against the viewport width, y and height against
+    # its height (the rule of C03 R03.7, for the svg element)
+    from . import c03
+
+    c03.axis_reference(ctx.renamed("R11.8"), only=("SVG",))
     fn = ctx.fn("Viewbox.viewbox_transform", "R11.1")
     have = [a.arg for a in fn.args.args]
     ctx.need(len(have) == 9, "R11.1", "viewbox_transform parameters changed: %s" % have)
